@@ -347,6 +347,7 @@ Definition move_behind_aux (h : ht) (I : itab) (e d : positive) : ht * itab :=
 Definition move_pos_aux (h : ht) (I : itab) (e : positive) (idx : nat) : ht * itab :=
   if idx =? 0 then move_front_aux h I e
   else if cnt h <=? idx then move_back_aux h I e
+  else if opt_pos_eqb (entry_at h idx) (Some e) then (h, I)   (* already there: not unlinked (fix 5556955) *)
   else
     let '(h1, I1) := remove_iter_entry h I e in
     let after := if idx <? cnt h / 2 then nth_next h1 (hd h1) (idx - 1)
